@@ -9,6 +9,7 @@ mod kmisc;
 mod kmesh;
 mod kseries;
 mod kcurve;
+mod kframe;
 
 pub fn f(v: &Value) -> f64 {
     match v {
@@ -50,6 +51,8 @@ fn main() {
     } else if let Some(v) = kseries::run(&kernel, &a) {
         v
     } else if let Some(v) = kcurve::run(&kernel, &a) {
+        v
+    } else if let Some(v) = kframe::run(&kernel, &a) {
         v
     } else if let Some(v) = kmisc::run(&kernel, &a) {
         v
